@@ -40,6 +40,22 @@ class FunctionReport:
     cases: int = 0
 
 
+def _symbolic_for_annotation(cx, arg):
+    import ast as _ast
+    if arg.annotation is None:
+        return None
+    txt = _ast.unparse(arg.annotation).replace(" ", "")
+    if txt == "bool":
+        return cx.bool("param_" + arg.arg)
+    if txt == "int":
+        return cx.int("param_" + arg.arg)
+    if txt in ("Optional[int]", "int|None", "None|int"):
+        return cx.int("param_" + arg.arg) if cx.choose("param_" + arg.arg + "_given") else None
+    if txt in ("Optional[bool]", "bool|None"):
+        return cx.bool("param_" + arg.arg) if cx.choose("param_" + arg.arg + "_given") else None
+    return None
+
+
 def verify_function(index: SourceIndex, c: Contract, registry: Optional[dict] = None) -> FunctionReport:
     rep = FunctionReport(c.target)
     t0 = time.time()
@@ -81,12 +97,13 @@ def verify_function(index: SourceIndex, c: Contract, registry: Optional[dict] = 
                 # parameters the contract does not supply take their declared defaults
                 fa = fn.args
                 plist = fa.posonlyargs + fa.args
-                for p_, d_ in zip(plist[len(plist) - len(fa.defaults):], fa.defaults):
-                    if p_.arg not in fr.locals:
-                        fr.locals[p_.arg] = it.ev(d_, fr)
-                for p_, d_ in zip(fa.kwonlyargs, fa.kw_defaults):
-                    if p_.arg not in fr.locals and d_ is not None:
-                        fr.locals[p_.arg] = it.ev(d_, fr)
+                for p_, d_ in list(zip(plist[len(plist) - len(fa.defaults):], fa.defaults)) + list(zip(fa.kwonlyargs, fa.kw_defaults)):
+                    if p_.arg in fr.locals or d_ is None:
+                        continue
+                    # a parameter the contract does not mention ranges over its annotated type (not just its default),
+                    # so that a newly added parameter is explored instead of being silently fixed to its default
+                    sv = _symbolic_for_annotation(cx, p_) if getattr(c, "explore_unlisted_params", True) else None
+                    fr.locals[p_.arg] = sv if sv is not None else it.ev(d_, fr)
                 fr.args_ns = a
                 cx.ghost["pre_args"] = a
                 try:
@@ -123,6 +140,10 @@ def verify_function(index: SourceIndex, c: Contract, registry: Optional[dict] = 
     except Unsupported as e:
         rep.status = "unsupported"
         rep.message = str(e)
+    except KeyError as e:
+        # a contract callback refers to a local / field the code no longer has: the contract does not match the code
+        rep.status = "unsupported"
+        rep.message = f"the contract refers to {e} which the current code does not define (contract needs re-annotation)"
     except MissingFunction as e:
         rep.status = "missing"
         rep.message = f"{e}"
